@@ -128,6 +128,15 @@ def regenerate_guards(pid):
         hold = ht.read_text() if ht.exists() else ""
         if htext != hold: ht.write_text(htext)
         info["holdouts"] = {"module": "LK.Gen.HoldoutC05", "obligations": "LK/Proofs/HoldoutC05.lean", "function": "splitting/holdout.py: SampleN, SampleFrac, LastN, LastFrac", "changed_since_last_run": htext != hold}
+    if pid == "C07":
+        # the methods of RMSE / MAE (translate/py2lean_agg.py)
+        import py2lean_agg
+        gt = LEAN_DIR / "LK" / "Generated" / "AggC07.lean"
+        try: gtext = py2lean_agg.generate(os.path.dirname(lenskit.__file__))
+        except py2lean_agg.Unsupported as e: return "untranslatable", f"RMSE / MAE: {e}", info
+        gold = gt.read_text() if gt.exists() else ""
+        if gtext != gold: gt.write_text(gtext)
+        info["error_metrics"] = {"module": "LK.Gen.AggC07", "obligations": "LK/Proofs/AggC07.lean", "function": "metrics/predict.py: RMSE / MAE measure_list, compute_list_data, extract_list_metric, global_aggregate", "changed_since_last_run": gtext != gold}
     if pid == "C10":
         # the linear systems the ALS row solvers build (translate/py2lean_als.py)
         import py2lean_als
@@ -225,7 +234,7 @@ def main():
         if status in ("untranslatable", "obligation-broken"):
             sys.exit(search_chunking(a.pid, f"{status}: {msg}"))
         if status == "build-error":
-            if ginfo is not None and any(f"{k}{a.pid}" in msg for k in ("Guards", "Wiring", "Scatter", "Np", "Imp", "Holdout", "Arrow", "Cand", "SaveTrace", "BatchTrace", "Neg", "Als")):
+            if ginfo is not None and any(f"{k}{a.pid}" in msg for k in ("Guards", "Wiring", "Scatter", "Np", "Imp", "Holdout", "Arrow", "Cand", "SaveTrace", "BatchTrace", "Neg", "Als", "Agg")):
                 sys.exit(obligation_broken(a.pid, "obligation-broken: " + msg.replace("\n", " | ")[:900], mod, a.tier, seed, a.replay, ginfo))
             print(f"machinery error: lake build failed\n{msg}", file=sys.stderr); sys.exit(2)
     else:
@@ -233,7 +242,7 @@ def main():
         r = subprocess.run(["lake", "build", f"LK.Props.{a.pid}", "lkdriver"], cwd=LEAN_DIR, capture_output=True, text=True, timeout=1800)
         if r.returncode != 0:
             bad = [l for l in (r.stdout + r.stderr).splitlines() if "error" in l][:8]
-            if ginfo is not None and any(any(f"{k}{a.pid}" in l for k in ("Guards", "Wiring", "Scatter", "Np", "Imp", "Holdout", "Arrow", "Cand", "SaveTrace", "BatchTrace", "Neg", "Als")) for l in bad):
+            if ginfo is not None and any(any(f"{k}{a.pid}" in l for k in ("Guards", "Wiring", "Scatter", "Np", "Imp", "Holdout", "Arrow", "Cand", "SaveTrace", "BatchTrace", "Neg", "Als", "Agg")) for l in bad):
                 sys.exit(obligation_broken(a.pid, "obligation-broken: " + " | ".join(bad)[:900], mod, a.tier, seed, a.replay, ginfo))
             print("machinery error: lake build failed\n" + "\n".join(bad[:6]), file=sys.stderr); sys.exit(2)
     try:
